@@ -145,7 +145,7 @@ func (w *World) Run(sc *Scenario, o RunOpts) *Outcome {
 	}()
 	for i := range sc.Files {
 		f := &sc.Files[i]
-		if f.Missing {
+		if f.Missing || f.Name == "-" {
 			continue
 		}
 		p := filepath.Join(work, f.Name)
@@ -186,9 +186,20 @@ func (w *World) Run(sc *Scenario, o RunOpts) *Outcome {
 		harnessPanic("write plan %v", err)
 	}
 	stdinPath := "/dev/null"
+	var stdinData []byte
+	hasStdin := false
 	if sc.Stdin != nil {
+		stdinData, hasStdin = *sc.Stdin, true
+	}
+	for i := range sc.Files {
+		// a file named "-" is delivered on standard input
+		if sc.Files[i].Name == "-" && !sc.Files[i].Missing {
+			stdinData, hasStdin = sc.Files[i].Bytes(), true
+		}
+	}
+	if hasStdin {
 		stdinPath = filepath.Join(root, "stdin")
-		if err := os.WriteFile(stdinPath, *sc.Stdin, 0600); err != nil {
+		if err := os.WriteFile(stdinPath, stdinData, 0600); err != nil {
 			harnessPanic("write stdin %v", err)
 		}
 	}
